@@ -124,6 +124,9 @@ def gen_table(tier, seed):
                     k = r.choice(["drop_row", "dup_row", "relabel", "blank", "drop_col", "extra_valcol", "dup_and_drop", "extra_textcol"])
                     faults.append({"kind": k, "pos": r.randrange(1000), "col": r.randrange(4),
                                    "change_value": r.random() < 0.5})
+                    if k == "relabel" and r.random() < 0.4:
+                        faults[-1]["frac"] = True          # an integer label becomes label + 0.75: not an item either
+                        stats["fault_kinds"]["relabel_fractional"] = stats["fault_kinds"].get("relabel_fractional", 0) + 1
                     stats["fault_kinds"][k] = stats["fault_kinds"].get(k, 0) + 1
                 stats["faulty"] += 1
             miss, extra = r.choice([(0, 0), (0, 0), (1, 0), (0, 1), (1, 1)])
